@@ -11,6 +11,22 @@ LEVEL_NOTE = ("Trusted base: TLC 1.8 and the TLA+ modules in spec/ (checked with
               "the evidence file (tlc_runs); beyond them TLC random simulation of the same specification is used.")
 
 CLAIMS = {
+    "C02": ("Lin.tla: per-arm A = lambda*I + X'X, Xty = X'y accumulated incrementally vs the ridge normal equations "
+            "over the ghost history with exact rational arithmetic (Inv_C02_NormalEq/Solves/Unobserved); every edge "
+            "replayed on LinGreedy/LinUCB/LinTS: A, Xty exactly, beta and expectations against exact x.beta and "
+            "x'A^-1x (plus numpy.linalg.solve as a second oracle), d in {1,2}, m in {1,2,3,1025,1500}, scale=True "
+            "single fit through a rational identity", "6.C02"),
+    "C03": ("Nbhd.tla: exact distances on integer grids, RadiusSet (boundary included) and all tie-valid KSets; "
+            "recorded executions of real Radius/KNearest bandits validated by TraceNbhd.tla, which also prints "
+            "the set of documented results per query (learning policy trained from scratch on the selected rows) "
+            "that the real expectations must belong to", "6.C03"),
+    "C11": ("Nbhd.tla LSH tables with index offsets, exhaustive over all signature maps (Inv_C11_Tables/Union/"
+            "Self); recorded executions validated by TraceNbhd.tla with signatures recomputed from "
+            "table_to_plane: logged tables = spec tables after every fit/partial_fit, query result = policy on "
+            "the collision set, scaled and stored queries", "6.C11"),
+    "C12": ("Nbhd.tla cell / leaf bookkeeping exhaustive over all cell maps (Inv_C12_Leaves); recorded executions "
+            "of Clusters (KMeans, MiniBatchKMeans) and TreeBandit validated by TraceNbhd.tla with cells and leaves "
+            "read from the fitted sklearn objects", "6.C12"),
     "C01": ("Mab.tla: impl-shaped accumulators/expectations vs Def* over the ghost history (Inv_C01_Acc/Total/Term/"
             "Neutral) for the six context-free policies, TLC-checked on all histories within bounds; every emitted "
             "edge replayed on a real MAB and its projected state and sampler output compared with the exact term; "
@@ -45,6 +61,9 @@ CLAIMS = {
 
 NOT_APPLICABLE = {}
 
+TECH = {p: "explicit TLA+ spec checked by TLC; recorded executions of the real library validated against it "
+           "(code->spec trace validation, TLC prints the documented result set per query)" for p in ("C03", "C11", "C12")}
+
 
 def main():
     head = subprocess.run(["git", "-C", "/repo", "log", "--format=%H %s"], stdout=subprocess.PIPE).stdout.decode()
@@ -61,8 +80,8 @@ def main():
             "engine": "tlc+replay",
             "level_claimed": {"category": "model_checking", "text": text, "design_ref": ref},
             "level_note": LEVEL_NOTE,
-            "technique": "explicit TLA+ spec checked by TLC; every TLC-emitted edge replayed on the real library "
-                         "(spec->code conformance)",
+            "technique": TECH.get(prop, "explicit TLA+ spec checked by TLC; every TLC-emitted edge replayed on the real "
+                                           "library (spec->code conformance)"),
         })
     props = [json.loads(line)["id"] for line in open(os.path.join(ROOT, "properties.jsonl"))]
     na = [{"property_id": p, "reason": NOT_APPLICABLE.get(p, "check not built yet in this round (model-based check planned, see DESIGN.md section 6)")}
@@ -80,6 +99,8 @@ def main():
             "add_only": True,
         },
         "engines": [
+            {"name": "tlc+trace-validation", "path": "harness/engine_nb.py", "serves_properties": ["C03", "C11", "C12", "C08", "C09", "C10"],
+             "kind_free_text": "recorded executions of real neighbourhood bandits validated by spec/TraceNbhd.tla"},
             {"name": "tlc+replay", "path": "harness/engine_cf.py", "serves_properties": sorted(CLAIMS),
              "kind_free_text": "TLC model checking / simulation of spec/*.tla with edge emission; replay of every edge "
                                "on the real library with projection, exact-term and deep-snapshot comparison"},
